@@ -102,12 +102,11 @@ fn inv(op: &Op, _ctx: &dyn Context, operands: &mut dyn CoordinateSet) -> usize {
         let lam = (lam_p / c) + lam_0;
         let mut phi = phi_p;
 
-        let mut prev_phi = phi_p;
         let mut j = MAX_ITERATIONS;
         while j > 0 {
             let S = C + e * ((FRAC_PI_4 + (e * phi.sin()).asin() / 2.0).tan().ln());
 
-            prev_phi = phi;
+            let prev_phi = phi;
             phi = 2.0 * (S.exp()).atan() - FRAC_PI_2;
 
             // Convergence must be tested *after* the update: phi and prev_phi start out equal
